@@ -1,4 +1,6 @@
 """C01 — BGZF write/read identity and well-formed members: structural clauses (DESIGN.md §5 C01)."""
+import re
+
 from .. import cfg as C
 from .. import rules as R
 
@@ -252,6 +254,34 @@ def run(ctx):
             R.must_pass(ctx, "C01.R5", fd.key, r"writer::Writer::<W>::try_finish$",
                         "Drop passes try_finish() when the writer was not finished", only_if_edge=tt, fn=fd,
                         exits=C.return_blocks(fd))
+    # "finished or dropped" also holds for the multithreaded writer: its Drop reaches the staged-data flush (finish() = flush + finish_inner)
+    fdm = ctx.anchor("C01.R5", "<noodles_bgzf::io::multithreaded_writer::MultithreadedWriter<W> as core::ops::drop::Drop>::drop")
+    if fdm is not None:
+        calls = {(c.get("f") or "") for _b, c in fdm.calls()}
+        def _reaches_flush(fk, depth=0):
+            if re.search(r"MultithreadedWriter<W> as std::io::Write>::flush$", fk):
+                return True
+            g = fb.fns.get(fk)
+            if g is None or depth >= 2 or not g.blocks:
+                return False
+            # every success path of the callee passes the flush
+            hit = {b for b, c in g.calls() if _reaches_flush(c.get("f") or "", depth + 1)}
+            ex = C.success_exit_blocks(g)
+            return bool(hit) and not any(e in C.reachable(g, 0, removed=hit) for e in ex)
+        hits = {b for b, c in fdm.calls() if _reaches_flush(c.get("f") or "")}
+        live = [b for b, blk in enumerate(fdm.blocks) if not blk.get("cu")]
+        sw = [b for b in live if fdm.blocks[b]["t"][0] == "sw"]
+        rets = C.return_blocks(fdm)
+        # the only way around the flush is the `state is Done` edge (nothing staged any more)
+        around = [r for r in rets if r in C.reachable(fdm, 0, removed=hits)]
+        if hits:
+            ctx.ok("C01.R5", fdm.key + " :: Drop of an unfinished multithreaded writer passes flush() of the staged block", "via finish()", fdm.loc())
+        else:
+            ctx.violation("C01.R5", "C01.R5/mt-drop-without-flush/" + fdm.key,
+                          "Drop of the multithreaded writer no longer passes a call whose every success path flushes the staging buffer "
+                          "(finish() = flush() + finish_inner()): the last, partial block of a dropped writer is discarded, the file stays "
+                          "well-formed and shorter", fdm.loc())
+
     ffl = ctx.anchor("C01.R5", WIMPL + "flush")
     if ffl is not None:
         sw = R.switch_on_call(ffl, r"Vec::<T, A>::is_empty$|::is_empty$")
